@@ -158,6 +158,10 @@ fn recaps(w: &mut World, _last: &Op) {
                         w.fail("C18.a", format!("{desc}: succeeded although none of the original rights can be recovered"));
                         continue;
                     }
+                    if strict.is_empty() {
+                        w.fail("C18.p", format!("{desc}: succeeded although the master key publishes none of the original rights any more (they are disabled)"));
+                        continue;
+                    }
                     if secret.to_vec() == orig.secret {
                         w.fail("C18.n", format!("{desc}: returned the original secret"));
                     }
@@ -166,11 +170,14 @@ fn recaps(w: &mut World, _last: &Op) {
                     }
                     w.bump("recaps_ok");
                     if let Ok(we) = wire::WEnc::decode(&ser(&enc)) {
-                        if we.items.len() < strict.len().max(1) || we.items.len() > wide.len().max(1) {
-                            w.fail("C18.t", format!("{desc}: new encapsulation has {} targets, expected between {} and {}", we.items.len(), strict.len(), wide.len()));
+                        // exactly the rights the master key can still open AND still publishes (a
+                        // right disabled since is not published by the master key, even if the
+                        // given, older, public key still holds an encryption key for it)
+                        if we.items.len() != strict.len() {
+                            w.fail("C18.t", format!("{desc}: new encapsulation has {} targets, expected {} (openable and still published: {} of the original {})", we.items.len(), strict.len(), strict.len(), orig.model.targets.len()));
                         }
-                        if strict == wide && !wide.is_empty() {
-                            let hybrid = wide.iter().all(|r| pubj.keys[r].1);
+                        {
+                            let hybrid = strict.iter().all(|r| pubj.keys[r].1);
                             if we.hybrid != hybrid {
                                 w.fail("C11.d", format!("{desc}: new encapsulation hybrid={}, expected {hybrid}", we.hybrid));
                             }
@@ -180,7 +187,8 @@ fn recaps(w: &mut World, _last: &Op) {
                         let held = w.usks[k].model.held.clone();
                         let holds = |set: &BTreeSet<RightM>| set.iter().any(|r| held.get(r).is_some_and(|h| h.contains(&pubj.keys[r].0)));
                         let must = holds(&strict);
-                        let may = holds(&wide);
+                        let may = must;
+                        let _ = &wide;
                         let got = catch_unwind(AssertUnwindSafe(|| w.cc.decaps(&w.usks[k].usk, &enc)));
                         w.bump("decaps");
                         match got {
